@@ -413,8 +413,68 @@ def client_side(tier, rng, viol, distinct):
     return ev
 
 
+def conn_methods(eng, recv, name, args, kw, st, n):
+    """ASSUMED model of the socket handed to network.recv: conn.recv(n) either returns some bytes (possibly none: end of stream) or raises a socket error;
+    every call is logged (ghost), so that the contract can count them"""
+    import z3
+    from pyvc.vals import OpaqueV, SeqV, IntV, TupV, ExcV, IntSeq
+    from pyvc.pure import to_int
+    if isinstance(recv, OpaqueV) and name == 'recv':
+        def gen():
+            k = len([1 for _ in range(0)])
+            st2 = eng.emit(st, TupV([IntV(to_int(args[0]))]), getattr(n, 'lineno', None))
+            idx = st2.out_n if hasattr(st2, 'out_n') else 0
+            for s, fails in eng.fork(st2, z3.Bool('_g_recv_fails_%s' % z3.simplify(idx))):
+                if fails:
+                    yield s, ExcV('OSError', 'socket error', getattr(n, 'lineno', None))
+                else:
+                    yield s, SeqV(z3.Const('_g_received_%s' % z3.simplify(idx), IntSeq), 'bytes')
+        return gen()
+    return None
+
+
+def replay_recv(model, obligation):
+    """the real network.recv on a socket pair: whatever is pending is returned at once, in pieces of at most the buffer size, and nothing is lost or waited for"""
+    import socket
+    import threading
+    from cpppo.server import network
+    for size in (1, 100, 4095, 4096, 4097, 8192, 12288):
+        a, b = socket.socketpair()
+        try:
+            payload = bytes(bytearray((i * 7) % 251 for i in range(size)))
+            a.sendall(payload)
+            got, out = b'', {}
+
+            def pull():
+                out['first'] = network.recv(b, timeout=1.0)
+            t = threading.Thread(target=pull, daemon=True)
+            t.start()
+            t.join(3.0)
+            if t.is_alive():
+                return dict(confirmed=True, function='cpppo.server.network.recv', input='%d bytes pending, then silence' % size, observed='recv does not return within 3 s',
+                            required='the pending bytes (at most one buffer) at once')
+            first = out.get('first')
+            if not first or payload[:len(first)] != first or len(first) > 4096:
+                return dict(confirmed=True, function='cpppo.server.network.recv', input='%d bytes pending, then silence' % size, observed='returns %r' % (first if first is None else len(first),),
+                            required='the first up to 4096 pending bytes')
+        finally:
+            a.close()
+            b.close()
+    return dict(confirmed=False)
+
+
+def recv_spec():
+    from pyvc.spec import Spec
+    return Spec('network.recv', ('server/network.py', 'recv'), params={'conn': 'Opaque', 'maxlen': 'Int'}, requires='maxlen >= 1', yields=1,
+                ensures=[('one read per call: the socket is asked exactly once (select has said it is readable once)', 'NOUT == 1'),
+                         ('and for at most the buffer size', 'OUT(0) == maxlen')],
+                raises={}, modifies=[], hints=dict(value_method=conn_methods), replay=replay_recv,
+                note='the body of network.recv (its @readable decorator - select with the timeout - is not under contract); conn.recv by an assumed model: returns bytes or raises a socket error; '
+                     'calls are logged as ghost output')
+
+
 def contracts(repo):
     from . import source_common as SC
     from . import C01 as _C01
     # a frame is 24 bytes plus its declared length: what the library itself sends declares exactly the length of its payload (contract of C01)
-    return SC.peeking_specs() + SC.chaining_specs() + SC.remembering_specs() + [_C01.enip_encode_spec()]
+    return SC.peeking_specs() + SC.chaining_specs() + SC.remembering_specs() + [_C01.enip_encode_spec(), recv_spec()]
